@@ -112,6 +112,15 @@ func ruleC13For(c *Ctx, sub *ssa.Function, do, rr, pm *ssa.Call, first bool) {
 		c.obI("R13.1", anyLk, "catch-all-only-on-miss", guardedBy(anyLk, exactLk, factBool(vIs(extractOf(exactLk, 1)), false)), "the catch-all consumer is consulted only when the media type has no consumer of its own", "")
 		found := anyFact(factBool(vIs(extractOf(exactLk, 1)), true), factBool(vIs(extractOf(anyLk, 1)), true))
 		c.obI("R13.1", rr, "reader-needs-a-consumer", guardedBy(rr, exactLk, found), "the reader runs only when a consumer was found; otherwise the call fails", "ReadResponse reachable without a consumer")
+		// … and a registered catch-all always gets the response: between its lookup and the reader nothing but its
+		// absence ends the call (not the status, not a header, not the body's size)
+		for _, r := range realReturns(sub) {
+			if !pathExists(sub, anyLk, r, nil, isOneOf(rr)) {
+				continue
+			}
+			lost := pathExists(sub, anyLk, r, factBool(vIs(extractOf(anyLk, 1)), false), isOneOf(rr))
+			c.obI("R13.1", r, "catch-all-serves-every-response", !lost, "when the media type has no consumer of its own and a catch-all is registered, the reader is called with it — for every status code", "a return is reachable after the catch-all consumer was found, without the reader having been called")
+		}
 	} else if exactLk != nil && anyLk == nil && exactLk.CommaOk {
 		// table form
 		found, okOrd := candidateTableOrder(sub, isMT, isAny)
@@ -311,6 +320,21 @@ func ruleC13For(c *Ctx, sub *ssa.Function, do, rr, pm *ssa.Call, first bool) {
 			continue
 		}
 		for _, in := range instrs(fn) {
+			// appending to a slice held in the shared Runtime writes into its backing array whenever there is spare
+			// capacity: concurrent calls overwrite (and read) each other's elements
+			if ap, isCall := in.(*ssa.Call); isCall && in.Parent() == fn && calleeName(&ap.Call) == "builtin append" && len(ap.Call.Args) == 2 {
+				base := ap.Call.Args[0]
+				if sl, isSl := base.(*ssa.Slice); isSl {
+					base = sl.X
+				}
+				if ad, isLd := derefLoad(base); isLd {
+					if fa, isFA := ad.(*ssa.FieldAddr); isFA {
+						if n, stt := structOf(fa.X.Type()); n != nil && typeFullName(n) == runtimeT {
+							c.obD("R13.4", ap, "no-append-into-runtime-slice", false, "a call never appends to a slice of the shared Runtime (the elements land in the backing array every concurrent call shares)", short(fn.String())+" appends to Runtime."+stt.Field(fa.Field).Name())
+						}
+					}
+				}
+			}
 			st, ok := in.(*ssa.Store)
 			if !ok {
 				continue
